@@ -253,7 +253,72 @@ func checkC28(r *Result, rng *rand.Rand, thorough bool) {
 			impl = append(impl, []string{im[i]})
 		}
 	}
+	connectionInUseOutlivesReadTimeouts(r, thorough)
 	compareWithModel(r, "startup", cases, impl, runStartupOps)
+}
+
+// connectionInUseOutlivesReadTimeouts: a conformant client keeps ONE connection per mount and sends calls on it for
+// as long as it is mounted. The server's read timeout bounds the silence between two calls, not the age of the
+// connection. The real record-marking loop is run with a read timeout of 400 ms (hook VerifServeConnTimeouts; the
+// built-in value is 30 s) and a client sends NULL / MNT / GETATTR every 120 ms for 3.5 timeouts; in the thorough
+// tier the same is done over real TCP against Export with the built-in 30 s (36 s of calls every 4 s).
+func connectionInUseOutlivesReadTimeouts(r *Result, thorough bool) {
+	s, err := newSrv(NewRefFS(), absnfs.ExportOptions{})
+	must(err)
+	defer s.Close()
+	cl, sv := net.Pipe()
+	go absnfs.VerifServeConnTimeouts(s.S, s.H, &peerConn{Conn: sv, remote: &net.TCPAddr{IP: net.ParseIP("127.0.0.1"), Port: 900}}, 400*time.Millisecond, 400*time.Millisecond)
+	p := &Peer{c: cl, xid: 500, ip: "127.0.0.1"}
+	defer p.Close()
+	r.noteCase("connection-in-use", true)
+	r.count("connection-in-use")
+	t0 := time.Now()
+	for i := 0; time.Since(t0) < 1400*time.Millisecond; i++ {
+		var err error
+		switch i % 3 {
+		case 0:
+			_, _, _, err = p.call(progNFS, 3, 0, rootCred(), nil)
+		case 1:
+			_, _, _, err = p.call(progMount, 3, 1, rootCred(), xdrOpaque([]byte("/")))
+		default:
+			_, _, _, err = p.call(progNFS, 3, 1, rootCred(), fh(1))
+		}
+		if err != nil {
+			r.violate(Violation{Class: "C28/connection-cut-while-in-use", What: fmt.Sprintf("a connection on which a call was sent every 120 ms (read timeout 400 ms) stopped being served %v after it was opened: %v", time.Since(t0).Round(10*time.Millisecond), err),
+				Ops: []string{"connection-in-use: NULL/MNT/GETATTR every 120 ms on one connection, read timeout 400 ms"}})
+			return
+		}
+		time.Sleep(120 * time.Millisecond)
+	}
+	if !thorough {
+		return
+	}
+	fs := NewRefFS()
+	n, err := absnfs.New(fs, absnfs.ExportOptions{})
+	must(err)
+	defer n.Close()
+	if err := n.Export("/", 0); err != nil {
+		r.Notes = append(r.Notes, "connection-in-use over TCP skipped: "+err.Error())
+		return
+	}
+	defer n.Unexport()
+	conn, err := net.DialTimeout("tcp", fmt.Sprintf("127.0.0.1:%d", absnfs.VerifExportPort(n)), 2*time.Second)
+	if err != nil {
+		r.Notes = append(r.Notes, "connection-in-use over TCP skipped: "+err.Error())
+		return
+	}
+	defer conn.Close()
+	t0 = time.Now()
+	for xid := uint32(1); time.Since(t0) < 36*time.Second; xid++ {
+		conn.SetDeadline(time.Now().Add(5 * time.Second))
+		if _, err := rmCall(conn, xid, progNFS, 3, 0, nil); err != nil {
+			r.violate(Violation{Class: "C28/connection-cut-while-in-use", What: fmt.Sprintf("over TCP against Export: a connection on which a NULL call was sent every 4 s stopped being served %v after it was opened: %v", time.Since(t0).Round(time.Second), err),
+				Ops: []string{"connection-in-use over TCP: NULL every 4 s for 36 s on one connection"}})
+			return
+		}
+		time.Sleep(4 * time.Second)
+	}
+	r.count("connection-in-use-tcp")
 }
 
 // pmGetPort asks the portmapper on 127.0.0.1:111 (portmap v2 GETPORT, TCP) for the port of (prog, vers, tcp).
